@@ -524,14 +524,14 @@ func run(c *hl.Ctx) error {
 		return nil
 	}
 	r := c.Rand()
-	for i := c.Pick(6000, 300000); i > 0; i-- {
+	for i := c.Pick(6000, 150000); i > 0; i-- {
 		c.Emit(runUnit(genUnit(r, c)))
 	}
-	for i := c.Pick(300, 20000); i > 0; i-- {
+	for i := c.Pick(300, 6000); i > 0; i-- {
 		c.Count("e2e:fake")
 		runE2E(c, genText(r, c), "fake", r.Int63n(1<<40))
 	}
-	for i := c.Pick(60, 3000); i > 0; i-- {
+	for i := c.Pick(60, 600); i > 0; i-- {
 		c.Count("e2e:dagre")
 		runE2E(c, genText(r, c), "dagre", 0)
 	}
